@@ -97,41 +97,42 @@ def _lexical_dot(name):
 
 
 def independent_names(raw, fmt):
-    """Candidate name columns of a listing line by plain column splitting (independent of aioftp's parsers), under both
-    column conventions (columns separated by spaces only / by any whitespace).  Empty set when the line has no name
-    column at all (such a line carries no entry: not judged)."""
+    """Readings of the name column of a listing line by plain column splitting (independent of aioftp's parsers), under
+    both column conventions (columns separated by spaces only / by any whitespace) and both end-of-line trimmings.
+    One item per reading that recognises the line shape: the name, or None when that reading finds no name column
+    (such a line carries no entry)."""
     s = raw.decode("utf-8", "replace")
-    out = set()
+    out = []
     if fmt == "mlsx":
         facts, sep, name = s.rstrip("\r\n").partition(" ")
         if sep and name.strip():
-            out.add(name)
-            out.add(name.strip())
+            out += [name, name.strip()]
+        else:
+            out.append(None)
         return out
     for splitter in (lambda t, n: t.split(None, n), lambda t, n: re.split(" +", t.strip(" "), n)):
         for t in (s.rstrip(), s.rstrip("\r\n")):
             f = splitter(t, 8)
-            if len(f) == 9 and len(f[0]) >= 10 and f[0][0] in "-dlbcps":
-                name = f[8]
+            if len(f) >= 1 and len(f[0]) >= 10 and f[0][0] in "-dlbcps":
+                name = f[8] if len(f) == 9 else ""
                 if f[0][0] == "l" and " -> " in name:
                     name = name.rsplit(" -> ", 1)[0]
-                if name.strip():
-                    out.add(name.strip())
+                out.append(name.strip() or None)
             w = splitter(t, 4)
-            if len(w) == 5 and w[2].upper() in ("AM", "PM") and w[4].strip():
-                out.add(w[4].strip())
+            if len(w) >= 3 and w[2].upper() in ("AM", "PM"):
+                out.append((w[4].strip() if len(w) == 5 else "") or None)
     return out
 
 
 def independent_name(raw, fmt):
-    n = sorted(independent_names(raw, fmt))
+    n = sorted(x for x in independent_names(raw, fmt) if x)
     return n[0] if n else None
 
 
 def names_dot_entry(raw, fmt="list"):
-    """True unless every independent reading of the line yields a name that is lexically not a dot entry."""
+    """True unless every independent reading of the line finds a name and none of them is (lexically) a dot entry."""
     ns = independent_names(raw, fmt)
-    return not ns or any(_lexical_dot(n) for n in ns)
+    return not ns or any(n is None or _lexical_dot(n) for n in ns)
 
 
 def parser_contract(data):
